@@ -201,7 +201,7 @@ type libIndex map[string]int // "p.Name" / "ext.Name" -> declaration number
 
 func newLibIndex() libIndex {
 	li := libIndex{}
-	for i, d := range gen.Lib().Decls {
+	for i, d := range gen.LibLocal().Decls {
 		pk := d.Pkg
 		if pk == "" {
 			pk = "p"
@@ -229,13 +229,9 @@ func (li libIndex) canon(t types.Type) string {
 	case *types.Named:
 		o := x.Obj()
 		if o.Pkg() != nil {
-			switch o.Pkg().Path() {
-			case "corpus/p":
-				if i, ok := li["p."+o.Name()]; ok {
-					return fmt.Sprintf("n%d", i)
-				}
-			case "corpus/ext":
-				if i, ok := li["ext."+o.Name()]; ok {
+			// corpus/p, corpus/ext, and corpus/q0 for the types the derive package declares itself
+			if pk := strings.TrimPrefix(o.Pkg().Path(), "corpus/"); pk != o.Pkg().Path() {
+				if i, ok := li[pk+"."+o.Name()]; ok {
 					return fmt.Sprintf("n%d", i)
 				}
 			}
